@@ -37,6 +37,12 @@ func c11Place(t *rapid.T, name string, content []byte) *c11Arg {
 	default:
 		a.b = append([]byte(nil), content...)
 	}
+	// pure inputs may only be READ: half of the guarded ones are made read-only, so that even a write that is undone before the
+	// call returns (invisible to a before/after comparison) faults
+	if a.buf != nil && gen.Bool(t, name+".readonly") {
+		a.buf.ReadOnly()
+		a.place += ",read-only"
+	}
 	return a
 }
 
@@ -62,7 +68,7 @@ func c11ArgName(f *guard.Fault, args ...*c11Arg) string {
 
 func TestVerif_C11_AEAD(t *testing.T) {
 	rec := stats.Get("C11", "aead")
-	rec.Rule("rapid: Seal and Open through cipher.AEAD with nonce, aad, plaintext/ciphertext and dst each placed (independently) so that the slice ENDS at a PROT_NONE page, STARTS right after one, or lives on the heap; dst is nil, or a guarded slice with len l in 0..40 and capacity exactly l+need (ending at the inaccessible page) or l+need+extra (the extra capacity filled with canaries); lengths from the kernel-combination generator 0..1100, nonce 1..300, tag 12..16. Oracle: no memory fault (debug.SetPanicOnFault turns faults inside the assembly into panics), output equal to the reference GCM, every canary byte intact incl. the capacity past len(dst)+need, inputs unchanged. Non-trivial: length not a multiple of 16, or a wide kernel, or tag != 16, or nonce != 12; distinct by (lengths, placements, contents).")
+	rec.Rule("rapid: Seal and Open through cipher.AEAD with nonce, aad, plaintext/ciphertext and dst each placed (independently) so that the slice ENDS at a PROT_NONE page, STARTS right after one, or lives on the heap, and half of the guarded inputs are mapped READ-ONLY (a transient write into an input faults); dst is nil, or a guarded slice with len l in 0..40 and capacity exactly l+need (ending at the inaccessible page) or l+need+extra (the extra capacity filled with canaries); lengths from the kernel-combination generator 0..1100, nonce 1..300, tag 12..16. Oracle: no memory fault (debug.SetPanicOnFault turns faults inside the assembly into panics), output equal to the reference GCM, every canary byte intact incl. the capacity past len(dst)+need, inputs unchanged. Non-trivial: length not a multiple of 16, or a wide kernel, or tag != 16, or nonce != 12; distinct by (lengths, placements, contents).")
 	t.Cleanup(stats.FlushAll)
 	rapid.Check(t, func(t *rapid.T) {
 		c := drawGCMCase(t)
